@@ -9,7 +9,7 @@ ID = "C16"
 META = {
     "technique": "runtime monitoring: the real site networks' is_feasible is driven to its acceptance boundary (bisection along random directions, greedy coordinate filling to vertices, rounding to allowable levels, recorded rates of real simulations) and every schedule it accepts is judged by a physics oracle that recomputes line currents and transformer power from the stations' reported phase angles and a pinned wiring table; the constraint rows are walked once per network for phase angles, sign pattern and coverage",
     "design_ref": "DESIGN.md section 6 C16",
-    "level_text": "exploration: thousands (quick) / ~1e6 (thorough) accepted boundary schedules per run over Caltech, JPL and Office001 x {basic, real EVSE types} x transformer capacities (defaults, x1/3, x2, random); transformer power, secondary line currents, pod and sub-panel currents recomputed independently for every accepted schedule; ratings of exactly 0 and tiny ratings; plans of up to 4100 periods with a single overloading column at block seams; whole-ampere schedules in 8/16-bit integer and 16/32-bit float dtypes; numpy print options varied per case",
+    "level_text": "exploration: thousands (quick) / ~1e6 (thorough) accepted boundary schedules per run over Caltech, JPL and Office001 x {basic, real EVSE types} x transformer capacities (defaults, x1/3, x2, random); transformer power, secondary line currents, pod and sub-panel currents recomputed independently for every accepted schedule; ratings of exactly 0 and tiny ratings; plans of up to 4100 periods with a single overloading column at block seams; whole-ampere schedules in 8/16-bit integer and 16/32-bit float dtypes; numpy print options varied per case; site factories called with an explicit EVSE voltage; a malformed candidate with tolerances of its own before the search",
     "level_note": "V_LL = 120*sqrt(3) (the nominal '208 V'); which stations sit behind which transformer / pod / sub-panel is a pinned wiring table (station ids), the phase of each station is what the network itself reports; bounds carry the network's own acceptance tolerance max(1e-5, 1e-7 L) plus 1e-9 relative; the delta-side (primary) limits are not judged (the statement speaks of power, pods and sub-panels)",
 }
 LEVEL = "exploration"
